@@ -632,6 +632,10 @@ def malformed_cases(seed, tier):
         add('dangling', extra + [mk_def('a', [mk_child('nosuch')])])
         add('dangling', extra + [mk_def('a', [mk_child('second'), mk_child('Volt')]), mk_def('b', [mk_child('a')])])
         add('dangling', extra + [mk_def('a', [mk_child('celsius')])])
+        # undefined names that look like defined ones (plural, SI-prefixed, other case): a unit library may resolve them itself
+        for look in ('g1s', 'kg1', 'millig1', 'G1', 'volts', 'mvolt', 'Second'):
+            add('dangling', good + [mk_def('a', [mk_child(look)])])
+            add('dangling', good + [mk_def('a', [mk_child('second'), mk_child(look, exponent='2')]), mk_def('b', [mk_child('a')])])
         add('duplicate', extra + [mk_def('a', [mk_child('second')]), mk_def('a', [mk_child('second')])])
         add('duplicate', extra + [mk_def('a', [mk_child('second')]), mk_def('a', [mk_child('metre', 'kilo')])])
         add('duplicate', extra + [mk_def('a', base='yes'), mk_def('a', [mk_child('second')])])
@@ -654,7 +658,9 @@ def malformed_cases(seed, tier):
         if kind == 'cycle':
             victim['children'].append(mk_child(victim['name'], exponent='-1'))
         elif kind == 'dangling':
-            victim['children'].append(mk_child('undefined_unit'))
+            others = [d['name'] for d in defs if d is not victim]
+            victim['children'].append(mk_child(rng.choice(['undefined_unit'] + [n + 's' for n in others] + ['k' + n for n in others])
+                                               if others else 'undefined_unit'))
         elif kind == 'duplicate':
             defs.append(mk_def(victim['name'], [mk_child('second')]))
         else:
